@@ -1,3 +1,225 @@
-/-! # C13 — property theorems (to be written) -/
+import BddVerif.Lemmas.SerialIO
+import BddVerif.Lemmas.SerialValidate
+import BddVerif.Core.ApplyCanon
+/-!
+# C13 — deserialisers and `validate()` are safe on arbitrary input
+
+Property theorems about the executable model `Model/Serial.lean` (helper lemmas: `Lemmas/Serial*.lean`).
+In the model every Rust index expression is a partial `idx`/`aidx` whose failure is the outcome `panic`, and
+every loop without a bound of its own has a fuel whose exhaustion is the outcome `none` (diverge); the
+theorems say that these outcomes are unreachable.
+-/
 namespace B.Props.C13
+open B B.Serial
+
+/-! ## The readers and `from_nodes` never panic -/
+
+/-- **read_text_total**: for ALL byte sequences (valid UTF-8 or not, any field count, any number) the text
+    reader returns `ok` or `err` -/
+theorem read_text_total (bytes : List UInt8) : (readText bytes).isPanic = false := readText_not_panic bytes
+
+/-- … also through every scripted reader and every choice of buffer sizes -/
+theorem read_text_io_total (r : Reader) (wants : List Nat) : (readTextIO r wants).1.isPanic = false := by
+  obtain ⟨_, _, _, h⟩ := readTextIO_consumed r wants
+  exact h
+
+/-- **read_bytes_total**: for ALL byte sequences the binary reader returns `ok` (one node per complete record,
+    a trailing partial record is dropped) -/
+theorem read_bytes_total (bytes : List UInt8) :
+    readBytes bytes = .ok (decodeRecs bytes #[]) ∧ (readBytes bytes).isPanic = false := by
+  have h : readBytes bytes = .ok (decodeRecs bytes #[]) :=
+    readBytesIO_ok bytes.length bytes [] #[] (Nat.le_refl _) (by intro e he; simp at he)
+  exact ⟨h, by rw [h]; rfl⟩
+
+/-- … and through every scripted reader it returns `ok` or `err` -/
+theorem read_bytes_io_total (r : Reader) : (readBytesIO r #[]).1.isPanic = false := by
+  obtain ⟨_, _, _, h⟩ := readBytesIO_consumed r #[]
+  exact h
+
+/-- **from_nodes_total**: `from_nodes` returns `ok` or `err` on every node array -/
+theorem from_nodes_total (d : Arr) : (fromNodes d).isPanic = false := (fromNodes_spec d).2
+
+/-! ## Numbers are taken at face value -/
+
+/-- normally formatted text: `|N,N,N|…|` where every `N` is `0` or a non-zero digit followed by digits -/
+def Normal (s : List Char) : Prop := ∃ recs : List Rec, (∀ r ∈ recs, NormalRec r) ∧ s = render recs
+
+/-- **face_value** (characters): an accepted, normally formatted text re-serialises to itself -/
+theorem face_value_chars (s : List Char) (A : Arr) (hn : Normal s) (h : parseText s = .ok A) :
+    writeText A = s := by
+  obtain ⟨recs, hrec, rfl⟩ := hn
+  rw [parseText_render (fun r hr => cleanRec_of_normal (hrec r hr))] at h
+  obtain ⟨l, hA, hl⟩ := parseFields_normal recs #[] A hrec h
+  rw [writeText_eq_render, hA]
+  simp [hl]
+
+/-- **face_value** (bytes, through UTF-8 decoding) -/
+theorem face_value (s : List Char) (A : Arr) (hn : Normal s) (h : readText (utf8Encode s) = .ok A) :
+    writeText A = s := by
+  unfold readText at h
+  rw [utf8Decode_encode] at h
+  exact face_value_chars s A hn h
+
+/-- accepted numbers fit their types (nothing is truncated on the way in) -/
+theorem accepted_fields_fit : ∀ (ps : List (List Char)) (acc A : Arr),
+    (∀ nd ∈ acc.toList, nd.var ≤ u16Max ∧ nd.low ≤ u32Max ∧ nd.high ≤ u32Max) →
+    parseRecords ps acc = .ok A → ∀ nd ∈ A.toList, nd.var ≤ u16Max ∧ nd.low ≤ u32Max ∧ nd.high ≤ u32Max := by
+  have pd : ∀ max cs a v, a ≤ max → parseDigits max a cs = some v → v ≤ max := by
+    intro max cs
+    induction cs with
+    | nil => intro a v ha h; simp [parseDigits] at h; omega
+    | cons c cs ih =>
+      intro a v ha h
+      simp only [parseDigits] at h
+      split at h
+      · simp at h
+      · split at h
+        · rename_i hle; exact ih _ v hle h
+        · simp at h
+  have pu : ∀ max s v, parseUInt max s = some v → v ≤ max := by
+    intro max s v h
+    unfold parseUInt at h
+    split at h
+    · simp at h
+    · split at h
+      · simp at h
+      · exact pd _ _ _ _ (Nat.zero_le _) h
+    · split at h <;> exact pd _ _ _ _ (Nat.zero_le _) h
+  intro ps
+  induction ps with
+  | nil => intro acc A hacc h; simp [parseRecords] at h; subst h; exact hacc
+  | cons p ps ih =>
+    intro acc A hacc h
+    simp only [parseRecords] at h
+    cases hp : parseRecord p with
+    | panic m => simp [hp] at h
+    | err m => simp [hp] at h
+    | ok nd =>
+      simp only [hp] at h
+      refine ih _ A ?_ h
+      intro x hx
+      simp only [Array.toList_push, List.mem_append, List.mem_singleton] at hx
+      rcases hx with hx | rfl
+      · exact hacc x hx
+      · unfold parseRecord at hp
+        simp only at hp
+        split at hp
+        · simp at hp
+        · rename_i hl
+          have hl : (splitOn ',' p).length = 3 := by simpa using hl
+          match hs : splitOn ',' p, hl with
+          | [a, b, c], _ =>
+            simp only [hs, idx, liftOpt] at hp
+            cases e1 : parseUInt u16Max a <;> cases e2 : parseUInt u32Max b <;>
+              cases e3 : parseUInt u32Max c <;> simp [e1, e2, e3] at hp
+            subst hp
+            exact ⟨pu _ _ _ e1, pu _ _ _ e2, pu _ _ _ e3⟩
+
+/-! ## What is accepted is well-formed -/
+
+/-- **from_nodes_wf**: whatever `from_nodes` accepts is the input itself and is well-formed by level over its
+    declared variable count (terminals exact, variables in range, links in range, variables strictly
+    increasing along both links) — and conversely, so the checks are exactly `WFo` -/
+theorem from_nodes_wf (d b : Arr) : fromNodes d = .ok b ↔ b = d ∧ WFo d (numVars d) := by
+  rw [(fromNodes_spec d).1 b, fromNodesChecks_iff_wfo]
+
+/-- **validate_total**: the DFS of `validate` terminates within `2·size + 1` iterations on EVERY array (also
+    cyclic ones: the documented possibility of looping does not exist once the range checks have passed and
+    the `visited` vector is consulted), and never indexes out of bounds -/
+theorem validate_total (A : Arr) : ∃ o, validate A = some o ∧ o.isPanic = false := B.Serial.validate_total A
+
+/-- **validate_wf**: `validate() == Ok(())` implies well-formedness by level and that every decision node is
+    reachable from the root -/
+theorem validate_wf (A : Arr) (h : validate A = some (.ok ())) : WFo A (numVars A) ∧ AllReachable A :=
+  wfo_of_validate h
+
+/-! ## Consequences of well-formedness: evaluation terminates, operators accept -/
+
+/-- **wf_eval_terminates**: on a diagram that is well-formed by level, `eval_in` needs at most `n + 1` steps,
+    never indexes out of bounds, and computes the level-fuelled denotation `evW` -/
+theorem wf_eval_terminates (A : Arr) (n : Nat) (val : Array Bool) (h : WFo A n) (hv : n ≤ val.size) :
+    evalIn A val (n + 1) = some (.ok (evW A n (fun i => val.getD i false) (root A))) := by
+  have hpos : 0 < A.size := by
+    rcases Nat.eq_zero_or_pos A.size with h0 | h0
+    · have := h.zero; rw [Array.getElem?_eq_none (by omega)] at this; simp at this
+    · exact h0
+  unfold evalIn
+  rw [if_neg (by omega)]
+  have hle : varOf A n (A.size - 1) ≤ n := by
+    unfold varOf; split
+    · exact Nat.le_refl _
+    · split
+      · rename_i nd hnd
+        exact Nat.le_of_lt (h.inner _ nd (by omega) hnd).1
+      · exact Nat.le_refl _
+  rw [evalLoop_spec h val hv (n + 1) (A.size - 1) (by omega) (by omega)]
+  rfl
+
+/-- evaluation terminates on everything `from_nodes` accepts … -/
+theorem from_nodes_eval_terminates (d b : Arr) (val : Array Bool) (h : fromNodes d = .ok b)
+    (hv : numVars b ≤ val.size) : ∃ r, evalIn b val (numVars b + 1) = some (.ok r) := by
+  obtain ⟨rfl, hw⟩ := (from_nodes_wf d b).mp h
+  exact ⟨_, wf_eval_terminates _ _ val hw hv⟩
+
+/-- … and on everything `validate` passes -/
+theorem validate_eval_terminates (A : Arr) (val : Array Bool) (h : validate A = some (.ok ()))
+    (hv : numVars A ≤ val.size) : ∃ r, evalIn A val (numVars A + 1) = some (.ok r) :=
+  ⟨_, wf_eval_terminates _ _ val (validate_wf A h).1 hv⟩
+
+/-- **wf_ops_accept**: an accepted diagram meets the hypotheses of the operator theorem (C01/C02): applied
+    with any consistent table to any well-formed operand over the same variables, the model of
+    `apply_with_flip` returns the canonical array of the pointwise function -/
+theorem wf_ops_accept (d b R : Arr) (op : Op2) (c : Bool → Bool → Bool) (h : fromNodes d = .ok b)
+    (hR : WFo R (numVars b)) (hc : Consistent op c) :
+    applyWithFlip b R op none none none =
+      canon (numVars b) (fun v => c (evW b (numVars b) v (root b)) (evW R (numVars b) v (root R))) := by
+  obtain ⟨rfl, hw⟩ := (from_nodes_wf d b).mp h
+  have := applyWithFlip_eq_canon b R (numVars b) op c none none none hw hR rfl hc (by simp) (by simp) (by simp)
+  simpa [inv] using this
+
+theorem wf_ops_accept_validate (A R : Arr) (op : Op2) (c : Bool → Bool → Bool) (h : validate A = some (.ok ()))
+    (hR : WFo R (numVars A)) (hc : Consistent op c) :
+    applyWithFlip A R op none none none =
+      canon (numVars A) (fun v => c (evW A (numVars A) v (root A)) (evW R (numVars A) v (root R))) := by
+  have := applyWithFlip_eq_canon A R (numVars A) op c none none none (validate_wf A h).1 hR rfl hc
+    (by simp) (by simp) (by simp)
+  simpa [inv] using this
+
+/-! ## Non-vacuity -/
+
+def exOk : Arr := #[⟨2, 0, 0⟩, ⟨2, 1, 1⟩, ⟨1, 0, 1⟩, ⟨0, 2, 1⟩]
+/-- accepted by `from_nodes`, refused by `validate` (node 2 is unreachable) -/
+def exUnreach : Arr := #[⟨2, 0, 0⟩, ⟨2, 1, 1⟩, ⟨1, 0, 1⟩, ⟨0, 0, 1⟩]
+/-- the self-loop of the corpus: refused -/
+def exLoop : Arr := #[⟨1, 0, 0⟩, ⟨1, 1, 1⟩, ⟨0, 2, 2⟩]
+
+example : fromNodes exOk = .ok exOk := (from_nodes_wf exOk exOk).mpr ⟨rfl, wfoB_sound (by decide)⟩
+theorem validate_ok_of_bool {A : Arr} (h : (validate A).map Outcome.isOk = some true) :
+    validate A = some (.ok ()) := by
+  cases hv : validate A with
+  | none => simp [hv] at h
+  | some o => cases o <;> simp [hv, Outcome.isOk] at h ⊢
+theorem exOk_valid : validate exOk = some (.ok ()) := validate_ok_of_bool (by decide +kernel)
+example : (fromNodes exUnreach).isOk = true ∧ (validate exUnreach).map Outcome.isErr = some true :=
+  ⟨by rfl, by decide +kernel⟩
+example : (fromNodes exLoop).isErr = true ∧ (validate exLoop).map Outcome.isErr = some true :=
+  ⟨by rfl, by decide +kernel⟩
+example : WFo exOk (numVars exOk) ∧ AllReachable exOk := validate_wf exOk exOk_valid
+example : evalIn exOk #[true, false] 3 = some (.ok true) := by rfl
+example : Normal ['|', '2', ',', '0', ',', '0', '|', '2', ',', '1', ',', '1', '|', '0', ',', '0', ',', '1', '|'] :=
+  ⟨[(['2'], ['0'], ['0']), (['2'], ['1'], ['1']), (['0'], ['0'], ['1'])],
+   by
+    intro r hr
+    simp only [List.mem_cons, List.not_mem_nil, or_false] at hr
+    rcases hr with rfl | rfl | rfl
+    · exact ⟨.inr ⟨'2', [], 2, rfl, by decide, by decide, by simp⟩, .inl rfl, .inl rfl⟩
+    · exact ⟨.inr ⟨'2', [], 2, rfl, by decide, by decide, by simp⟩, .inr ⟨'1', [], 1, rfl, by decide, by decide, by simp⟩,
+        .inr ⟨'1', [], 1, rfl, by decide, by decide, by simp⟩⟩
+    · exact ⟨.inl rfl, .inl rfl, .inr ⟨'1', [], 1, rfl, by decide, by decide, by simp⟩⟩,
+   by decide⟩
+/-- the corpus inputs `|3|` and `|3,4294967296,0|` are refused, not a panic and not a truncation -/
+example : (parseText ['|', '3', '|']).isErr = true := by decide
+example : (parseText ['|', '3', ',', '4', '2', '9', '4', '9', '6', '7', '2', '9', '6', ',', '0', '|']).isErr = true := by decide
+example : (parseText ['|', '3', ',', '4', '2', '9', '4', '9', '6', '7', '2', '9', '5', ',', '0', '|']).isOk = true := by decide
+
 end B.Props.C13
